@@ -5,7 +5,7 @@
    the event grammar on every emitted prefix (C02), progress/termination. Each finished behaviour
    prints one REPLAY line (text + the outcome the model assigns) for the harness to replay on the
    real parser.                                                                                *)
-EXTENDS YParser, YEvents, Json
+EXTENDS YParser, YEvents, YPos, Json
 CONSTANTS N, AlphaName
 
 Sigma ==
@@ -41,6 +41,11 @@ Grammar == acc.ph # "BAD" /\ ((done /\ p.sc.err = "") => acc.ph = "end")
 Linear == steps <= 4 * Len(text) + 8
 \* C12-ish sanity inside the model: marks are within the text
 MarksInText == \A i \in 1..Len(evs) : evs[i].a[1] <= Len(text) + 1 /\ evs[i].b[1] <= Len(text) + 1 /\ evs[i].a[1] <= evs[i].b[1]
+\* C12 inside the model: every mark the model computes is a true position (YPos), spans are ordered and nested
+PosTrue == done => LET tab == PosTab(text) IN
+                   /\ EvsVerdict(tab, text, evs, 1) = "ok"
+                   /\ NestOK(evs, 1, <<>>)
+                   /\ (p.sc.err # "" => MarkOK(tab, text, p.sc.errmark))
 Termination == <>done
 
 Out == done => PrintT(<<"REPLAY", ToJson([text |-> text, err |-> p.sc.err, errmark |-> p.sc.errmark, evs |-> evs])>>)
